@@ -109,5 +109,19 @@ func Specs() map[string]*PropSpec {
 		Assumptions: []string{"SDK bank SendCoinsFromModuleToModule / BurnCoins replaced by a ledger stub with the documented contract (conservation, overdraft refused); natively the real SDK bank keeper is used, so validation traces compare the stub with the real thing"},
 		Stubs:       []string{"c14State (bank ledger)", "zzverif.MemStore", "blob codec"},
 	}
+	c19 := []Inst{{Pkg: "x/coinomics", Fn: "VerifC19_Coinomics", Params: pm()}, {Pkg: "x/feemarket", Fn: "VerifC19_Feemarket", Params: pm()},
+		{Pkg: "x/liquidvesting", Fn: "VerifC19_Liquidvesting", Params: pm("denoms", "2", "periods", "2")}, {Pkg: "x/ucdao/keeper", Fn: "VerifC19_Ucdao", Params: pm("accounts", "2")}}
+	c19t := []Inst{{Pkg: "x/coinomics", Fn: "VerifC19_Coinomics", Params: pm()}, {Pkg: "x/feemarket", Fn: "VerifC19_Feemarket", Params: pm()},
+		{Pkg: "x/liquidvesting", Fn: "VerifC19_Liquidvesting", Params: pm("denoms", "3", "periods", "3")}, {Pkg: "x/ucdao/keeper", Fn: "VerifC19_Ucdao", Params: pm("accounts", "3")}}
+	m["C19"] = &PropSpec{
+		ID: "C19", Pkgs: []string{"./x/coinomics", "./x/feemarket", "./x/liquidvesting", "./x/ucdao/keeper"}, Quick: c19, Thorough: c19t,
+		Bounds: map[string]string{
+			"quick":    "coinomics, fee market, liquid vesting (<= 2 denoms x 2 periods), UC DAO (2 accounts x 2 denominations): arbitrary module state S (every stored entry independently present/absent, every integer symbolic), Export(Init(Export(S))) compared field by field with Export(S) and through the keeper getters",
+			"thorough": "liquid vesting <= 3 denoms x 3 periods, UC DAO 3 accounts",
+		},
+		Outside:     []string{"x/evm (code, storage, accounts), x/erc20 token pairs, vesting accounts in x/auth, x/epochs (its InitGenesis re-anchors start height/time by design), app/export.go zero-height preparation", "protobuf/JSON encoding of the genesis document (typed blobs)"},
+		Assumptions: []string{"codec and gogoproto Marshal/Unmarshal are an inverse pair on typed blobs", "legacy param subspace = one typed blob"},
+		Stubs:       []string{"zzverif.MemStore", "c19AK (account keeper returning module accounts)"},
+	}
 	return m
 }
